@@ -4,10 +4,10 @@
 package mgrsim
 
 import (
-	"os"
 	"encoding/json"
 	"fmt"
 	"math/rand/v2"
+	"os"
 	"strings"
 
 	"github.com/spq/pkappa2/verif/netsim"
